@@ -19,7 +19,6 @@ package main
 import (
 	"bytes"
 	"encoding/hex"
-	"fmt"
 	"math/big"
 	mrand "math/rand"
 	"os"
@@ -29,6 +28,7 @@ import (
 
 	"elaverif/harness/hx"
 	"elaverif/harness/regnet"
+	"elaverif/harness/runop"
 
 	"github.com/elastos/Elastos.ELA/common"
 	"github.com/elastos/Elastos.ELA/common/config"
@@ -58,79 +58,6 @@ func exec(t []string) string {
 }
 
 // ---------------------------------------------------------------- oracle
-
-// number of distinct key scripts of a multisig-shaped code that have a verifying signature chunk
-func distinctSigned(r *runOp, p progIn) int {
-	code := p.Code
-	if len(code) < 3 {
-		return 0
-	}
-	body := code[1 : len(code)-2]
-	if len(body)%34 != 0 || len(p.Param)%65 != 0 {
-		return 0
-	}
-	seen := map[string]bool{}
-	for i := 0; i+34 <= len(body); i += 34 {
-		ks := body[i : i+34]
-		for j := 0; j+65 <= len(p.Param); j += 65 {
-			if r.VT[hx.Hex(ks[1:])+" "+hx.Hex(p.Param[j+1:j+65])] == "1" {
-				seen[string(ks)] = true
-			}
-		}
-	}
-	return len(seen)
-}
-
-func schnorrOK(r *runOp, p progIn) bool {
-	if len(p.Code) < 2 || len(p.Param) < 64 {
-		return false
-	}
-	return r.ST[hx.Hex(pad(33, p.Code[2:]))+" "+hx.Hex(p.Param[:64])] == "1"
-}
-
-// judgePair: is acceptance of (hash h, program i of r) justified by the signature matrix in the op line?
-func judgePair(r *runOp, h hashIn, i int) *hx.Violation {
-	p := r.Ps[i]
-	sch, std, ms := contract.IsSchnorr(p.Code), contract.IsStandard(p.Code), contract.IsMultiSig(p.Code)
-	if h.Pfx == byte(contract.PrefixCrossChain) {
-		if sch {
-			if !schnorrOK(r, p) {
-				return &hx.Violation{Kind: "accept-bad-signature", Detail: "cross-chain schnorr program accepted, SchnorrVerify is false"}
-			}
-			return nil
-		}
-		m := int(p.Code[0]) - 0x50
-		if m < 1 {
-			return &hx.Violation{Kind: "accept-unsigned-crosschain", Detail: "cross-chain program with m < 1 accepted (no signature required, no code-hash binding)"}
-		}
-		if distinctSigned(r, p) < m {
-			return &hx.Violation{Kind: "accept-bad-signature", Detail: "cross-chain program accepted with fewer than m distinct valid signers"}
-		}
-		return nil
-	}
-	if !bytes.Equal(h.Hash, r.CH[i]) {
-		return &hx.Violation{Kind: "accept-wrong-hash", Detail: "program code does not hash to the spent address"}
-	}
-	switch {
-	case sch:
-		if !schnorrOK(r, p) {
-			return &hx.Violation{Kind: "accept-bad-signature", Detail: "schnorr program accepted, SchnorrVerify is false"}
-		}
-	case std:
-		if len(p.Param) != 65 || r.VT[hx.Hex(p.Code[1:34])+" "+hx.Hex(p.Param[1:])] != "1" {
-			return &hx.Violation{Kind: "accept-bad-signature", Detail: "standard program accepted, Verify is not true"}
-		}
-	case ms || h.Pfx == byte(contract.PrefixMultiSig):
-		m := int(p.Code[0]) - 0x50
-		if m < 1 || distinctSigned(r, p) < m {
-			return &hx.Violation{Kind: "accept-bad-signature", Detail: "multisig program accepted with fewer than m distinct valid signers"}
-		}
-	default:
-		return &hx.Violation{Kind: "accept-unsigned-unknown-kind",
-			Detail: "program under a standard/deposit prefix is none of standard/multisig/schnorr and was accepted with no signature check"}
-	}
-	return nil
-}
 
 // reviewedExempt is the REVIEWED table of transaction kinds that checkTransactionSignature may accept
 // without looking at programs (they are created by the node itself from CR / DPoS state and are checked
@@ -172,42 +99,7 @@ func oracle(t []string, out string) *hx.Violation {
 		if reviewedExempt(o.Variant, o.Ttype, o.Pver) {
 			return nil
 		}
-		// every address the transaction spends from needs a program that justifies it
-		addrs := append([]hashIn{}, o.Refs...)
-		for _, a := range o.Attrs {
-			if a.Usage == byte(ctypes.Script) {
-				if len(a.Data) != 21 {
-					return &hx.Violation{Kind: "accept-unsigned-tx", Detail: "accepted with a malformed Script attribute"}
-				}
-				addrs = append(addrs, hashIn{Pfx: a.Data[0], Hash: a.Data[1:]})
-			}
-		}
-		for _, h := range addrs {
-			var first *hx.Violation
-			okFound := false
-			for i := range o.Run.Ps {
-				if h.Pfx != byte(contract.PrefixCrossChain) && !bytes.Equal(h.Hash, o.Run.CH[i]) {
-					continue
-				}
-				v := judgePair(o.Run, h, i)
-				if v == nil {
-					okFound = true
-					break
-				}
-				if first == nil {
-					first = v
-				}
-			}
-			if !okFound {
-				if first != nil && (first.Kind == "accept-unsigned-unknown-kind" || first.Kind == "accept-unsigned-crosschain") {
-					return first
-				}
-				return &hx.Violation{Kind: "accept-unsigned-tx",
-					Detail: fmt.Sprintf("tx type 0x%02x payload version %d accepted although spent address %02x%s has no program with verifying signatures (not in the reviewed exemption table)",
-						o.Ttype, o.Pver, h.Pfx, hx.Hex(h.Hash))}
-			}
-		}
-		return nil
+		return runop.JudgeTx(o)
 	}
 	r := parseRun(t)
 	if t[0] == "tamper" {
